@@ -14,6 +14,10 @@ COMMON_OUTSIDE = [
 PROPS = {
     "C01": dict(
         modules=["c01"],
+        # the seek-based round trips rely on the core's position / remaining bookkeeping; when that
+        # bookkeeping starts to depend on the IV the wrapper-level harness no longer finishes, so the core
+        # contract harnesses (every position, every IV) are part of this check
+        also=["c04::ctr128be_b32_w2_n3", "c04::ctr128le_b16_w2_n3", "c04::ctr64be_b24_w2_n3", "c04::ctr32be_b16_w2_n3", "c06::belt_core_w2_n3"],
         bounds=dict(cipher=CIPHER, key_iv_data="all values",
                     block_modes="CBC/PCBC/IGE/CFB/CFB-8: b in {2,4} (thorough +1,3,8), w in {1,2,3,4}, n = 3..9 blocks, mixed API paths (multi-block encrypt / single-block decrypt and vice versa, b2b)",
                     padded="Pkcs7, message lengths enumerated: 0, b-1, b, 2b+1 (quick), more in thorough; ciphertext length b*(L/b+1) asserted",
